@@ -269,8 +269,9 @@ def r2_value_tags(chk: Check):
     # reader
     rtags = {}
     g = CFG(r.node)
+    rdr_ = ReachingDefs(g)
     for n in g.live:
-        if n.kind == "test" and isinstance(n.ast, ast.Compare) and src(n.ast.left).endswith("['type']") and isinstance(n.ast.comparators[0], ast.Constant):
+        if n.kind == "test" and isinstance(n.ast, ast.Compare) and rdr_.canon(n.ast.left, n).endswith("['type']") and isinstance(n.ast.comparators[0], ast.Constant):
             tag = n.ast.comparators[0].value
             tb = [b for b, l in n.succ if l is True]
             used = set()
